@@ -184,6 +184,17 @@ impl Distribution<i64> for NewInt {
         1000 + rng.random_range(0..3)
     }
 }
+/// A gene generator that fails (panics) on its k-th use: a mutation that dies half way must leave
+/// nothing behind for the next one.
+struct PanicAfter(std::cell::Cell<u32>);
+impl Distribution<PushGene> for PanicAfter {
+    fn sample<R: Rng + ?Sized>(&self, _: &mut R) -> PushGene {
+        let left = self.0.get();
+        assert!(left > 0, "the gene generator failed");
+        self.0.set(left - 1);
+        PushGene::Instruction(VariableName::from("n0").into())
+    }
+}
 /// ... and on Plushy genomes: input variables n0, n1, n2.
 struct NewGene;
 impl Distribution<PushGene> for NewGene {
@@ -340,6 +351,15 @@ pub fn trace(args: &[String]) -> i32 {
                 let plushy = rng.random::<bool>();
                 // Plushy parents contain close markers (code 0), also at the very end
                 let codes: Vec<i64> = (1..=n as i64).map(|p| if plushy && (rng.random_range(0..4) == 0 || (p == n as i64 && rng.random())) { 0 } else { p }).collect();
+                if plushy && rng.random_range(0..4) == 0 {
+                    // an earlier UMAD on this thread died half way (its gene generator failed after a few genes)
+                    let k = rng.random_range(1..4u32);
+                    let _ = guarded(|| {
+                        let mut scratch = run_rng(seed, 0xC1E, run);
+                        let Ok(c) = Umad::new(1.0, 0.0, PanicAfter(std::cell::Cell::new(k))).mutate(plushy_parent(&[1, 2, 3, 4, 5, 6]), &mut scratch);
+                        c
+                    });
+                }
                 let res = guarded(|| -> Vec<i64> {
                     if plushy {
                         let u = match ctor {
